@@ -150,7 +150,12 @@ fn run_format(cfg: &Cfg, index: u64, stats: &mut Stats) {
     // explicit field spelling; a variant counts only if it parses and desugars to the same term
     if !has_verbatim {
         // (a nested `parentheses(preserve)` directive keeps every group by design)
-        if case.options.parens == 0 && !input.contains("parentheses(preserve)") {
+        // (the continuation lines of a block comment that opens after code keep their offset from the opener's column:
+        // parentheses written before the opener on its line move that column, so such sources are not comparable)
+        let comment_after_code = e2::scan::scan(&input).iter().any(|t| {
+            t.kind == e2::scan::Kind::BlockComment && input[t.start..t.end].contains('\n') && !input[..t.start].rsplit('\n').next().unwrap_or("").trim().is_empty()
+        });
+        if case.options.parens == 0 && !input.contains("parentheses(preserve)") && !comment_after_code {
             if let Some(variant) = mutate::add_redundant_parens(&input, &mut rng, true) {
                 if fmtwork::same_desugared(&input, &variant) {
                     if let Ok(Ok(other)) = case.format(&variant) {
